@@ -45,7 +45,24 @@ func Short(s string) string { return strings.ReplaceAll(s, Mod, "") }
 
 // Load type-checks the given package patterns (relative to root, e.g. "./pkg/services/object/...")
 // from source together with all their dependencies and builds SSA for everything.
-func Load(root string, patterns ...string) (*Prog, error) {
+func Load(root string, patterns ...string) (*Prog, error) { return load(root, Mod, patterns...) }
+
+// FixtureDir is where the checker's own positive examples live (set by the driver).
+var FixtureDir = "/verif/analyzer"
+
+var (
+	fixOnce sync.Once
+	fixProg *Prog
+	fixErr  error
+)
+
+// Fixtures loads (once) the tiny positive-example packages under FixtureDir/fixtures.
+func Fixtures() (*Prog, error) {
+	fixOnce.Do(func() { fixProg, fixErr = load(FixtureDir, "verif/analyzer/", "./fixtures/...") })
+	return fixProg, fixErr
+}
+
+func load(root, mod string, patterns ...string) (*Prog, error) {
 	cfg := &packages.Config{
 		Mode:  packages.LoadAllSyntax,
 		Dir:   root,
@@ -81,7 +98,7 @@ func Load(root string, patterns ...string) (*Prog, error) {
 	p := &Prog{Root: root, Fset: pkgs[0].Fset, Pkgs: pkgs, All: all, SSA: prog,
 		SSAPkg: map[string]*ssa.Package{}, funcs: map[string]*ssa.Function{}, reachMemo: map[string]map[*ssa.Function]bool{}}
 	for _, sp := range prog.AllPackages() {
-		if sp.Pkg != nil && strings.HasPrefix(sp.Pkg.Path(), Mod) {
+		if sp.Pkg != nil && strings.HasPrefix(sp.Pkg.Path(), mod) {
 			p.SSAPkg[Short(sp.Pkg.Path())] = sp
 		}
 	}
@@ -89,7 +106,7 @@ func Load(root string, patterns ...string) (*Prog, error) {
 		if fn.Blocks == nil || fn.Synthetic != "" && !strings.Contains(fn.Synthetic, "instance") {
 			continue
 		}
-		if pk := FuncPkg(fn); pk != nil && strings.HasPrefix(pk.Path(), Mod) {
+		if pk := FuncPkg(fn); pk != nil && strings.HasPrefix(pk.Path(), mod) {
 			p.allFuncs = append(p.allFuncs, fn)
 			p.funcs[FuncName(fn)] = fn
 		}
